@@ -437,7 +437,9 @@ func (w *crashWorld) gleave(cid, kind string, variant int64) string {
 	case "http":
 		point = "httpgroup.register.lookedup"
 	}
-	for attempt := 0; ; attempt++ {
+	// the port of an earlier op is still being released: on a loaded machine that has been seen to take more than the
+	// 200 ms this loop used to allow (thorough run, op 12 000 of a seed) — the bound is time, not attempts
+	for firstBy := time.Now().Add(3 * time.Second); ; {
 		resp := w.registerWait(L, mk(nameL, "k"), crashWait)
 		if resp == nil {
 			return "fail:gleave-first-unanswered"
@@ -445,10 +447,10 @@ func (w *crashWorld) gleave(cid, kind string, variant int64) string {
 		if resp.Error == "" {
 			break
 		}
-		if attempt == 40 {
+		if time.Now().After(firstBy) {
 			return "first-refused"
 		}
-		time.Sleep(5 * time.Millisecond) // the port of an earlier op is still being released
+		time.Sleep(5 * time.Millisecond)
 	}
 	g := w.arm(key, point)
 	released := false
